@@ -1,8 +1,17 @@
 """C06 helper — paired scenarios (operation sequences x device behaviours x chunkings x faults)
 through the real sync and asyncio driver stacks over SimDevice, observed canonically so that the
 two stacks can be compared WITH EACH OTHER (bytes written, results, exception class names,
-device-side execution log)."""
+device-side execution log, the timeout_ops the calls leave behind).  Device lines may be slow
+(latency in scripted time, see VClock / VirtualLoop): the real timeout decorators of both stacks
+decide whether a call times out."""
 import asyncio
+import atexit
+import contextlib
+import hashlib
+import os
+import shutil
+import signal as _signal
+import tempfile
 
 from . import simdevice
 from .simdevice import SimDevice, Starved, make_driver
@@ -30,12 +39,177 @@ class OnceFaultMixin:
         return super()._read()
 
 
-class ScriptedTransport(OnceFaultMixin, simdevice.ScriptedTransport):
-    pass
+# ------------------------------------------------------------------------------------------------
+# scripted time.  A device line may have a LATENCY (seconds the device thinks before it prints the answer,
+# device["latency"] = {line: seconds}); the operation timeouts of the real code (decorators.timeout_wrapper with the
+# timeout_ops that decorators.timeout_modifier put in effect) then decide whether a call times out.  Neither stack
+# sleeps for real:
+#   * asyncio: the batch runs on VirtualLoop, an ordinary selector event loop whose clock is a number that jumps to the
+#     next scheduled timer whenever the loop would otherwise block; the transport waits with `await asyncio.sleep(L)`,
+#     the real `asyncio.wait_for` of the decorator expires (or not) against it;
+#   * sync: the decorator's timer primitives (module attributes `signal` and `time` of scrapli.decorators) are replaced
+#     for the duration of a run by VSignal / VTime over the same kind of clock: the transport's blocking read advances
+#     the clock by L, and if the armed ITIMER_REAL falls due on the way the registered handler is called at that point
+#     of the read — where a real SIGALRM handler would run.
+# Ties (a deadline exactly equal to the moment the answer arrives) are kept out of the generators: latencies are
+# multiples of 0.25 s, timeouts are never.
+# ------------------------------------------------------------------------------------------------
+class VClock:
+    def __init__(self):
+        self.reset()
+
+    def reset(self):
+        self.now = 0.0
+        self.deadline = None
+        self.interval = 0.0
+        self.handler = _signal.SIG_DFL
+        self.fired = 0
+
+    def advance(self, dt):
+        target = self.now + dt
+        while self.deadline is not None and self.deadline <= target:
+            self.now = max(self.now, self.deadline)
+            self.deadline = (self.now + self.interval) if self.interval else None
+            self.fired += 1
+            if callable(self.handler):
+                self.handler(_signal.SIGALRM, None)        # scrapli's handler raises ScrapliTimeout
+        self.now = target
 
 
-class AsyncScriptedTransport(OnceFaultMixin, simdevice.AsyncScriptedTransport):
-    pass
+VCLOCK = VClock()
+
+
+class VSignal:
+    """stands in for the `signal` module inside scrapli.decorators"""
+
+    def __getattr__(self, name):
+        return getattr(_signal, name)
+
+    @staticmethod
+    def signal(signum, handler):
+        if signum != _signal.SIGALRM:
+            raise ValueError("scripted signal module: only SIGALRM is expected, got %r" % (signum,))
+        old, VCLOCK.handler = VCLOCK.handler, handler
+        return old
+
+    @staticmethod
+    def setitimer(which, seconds, interval=0.0):
+        if which != _signal.ITIMER_REAL:
+            raise ValueError("scripted signal module: only ITIMER_REAL is expected, got %r" % (which,))
+        old = (max(VCLOCK.deadline - VCLOCK.now, 1e-9) if VCLOCK.deadline is not None else 0.0, VCLOCK.interval)
+        VCLOCK.deadline = (VCLOCK.now + seconds) if seconds else None
+        VCLOCK.interval = interval if seconds else 0.0
+        return old
+
+
+class VTime:
+    """stands in for the `time` module inside scrapli.decorators"""
+
+    def __getattr__(self, name):
+        import time
+        return getattr(time, name)
+
+    @staticmethod
+    def monotonic():
+        return VCLOCK.now
+
+
+@contextlib.contextmanager
+def scripted_timers():
+    import threading
+
+    import scrapli.decorators as dec
+    if threading.current_thread() is not threading.main_thread():
+        raise RuntimeError("the paired scenarios must run in the main thread (the sync timeout decorator uses SIGALRM there)")
+    saved = (dec.signal, dec.time)
+    VCLOCK.reset()
+    dec.signal, dec.time = VSignal(), VTime()
+    try:
+        yield
+    finally:
+        dec.signal, dec.time = saved
+        VCLOCK.reset()
+
+
+class _VSelector:
+    """selector of VirtualLoop: never blocks; when nothing is ready the loop's clock jumps to the next timer"""
+
+    def __init__(self, inner, loop):
+        self._inner, self._loop = inner, loop
+
+    def __getattr__(self, name):
+        return getattr(self._inner, name)
+
+    def select(self, timeout=None):
+        ev = self._inner.select(0)
+        if ev or timeout == 0:
+            return ev
+        if timeout is None:
+            raise RuntimeError("virtual event loop: every task waits and no timer is scheduled (would block for ever)")
+        sched = self._loop._scheduled
+        new = self._loop._vt + timeout
+        if sched and abs(sched[0]._when - new) < 1e-6:
+            new = max(new, sched[0]._when)
+        self._loop._vt = new
+        return ev
+
+
+class VirtualLoop(asyncio.SelectorEventLoop):
+    def __init__(self):
+        super().__init__()
+        self._vt = 0.0
+        self._selector = _VSelector(self._selector, self)
+
+    def time(self):
+        return self._vt
+
+
+class LatencyMixin:
+    """serves the device's answers no earlier than the device's latency marks allow (DialogDevice.delays)"""
+
+    def _due(self):
+        """the unpaid latency mark the next byte to read lies behind, or None"""
+        if not self.opened:
+            return None
+        for m in self.device.delays:
+            if not m[2] and m[0] <= self.delivered:
+                return m
+        return None
+
+    def _read(self):
+        nxt = None
+        for m in getattr(self.device, "delays", ()):
+            if not m[2] and m[0] > self.delivered:
+                nxt = m[0]
+                break
+        if nxt is None or nxt >= len(self.device.out):
+            return super()._read()
+        out = self.device.out
+        self.device.out = out[:nxt]            # nothing behind an unpaid mark is readable yet
+        try:
+            return super()._read()
+        finally:
+            self.device.out = out
+
+
+class ScriptedTransport(LatencyMixin, OnceFaultMixin, simdevice.ScriptedTransport):
+    def read(self):
+        m = self._due()
+        while m is not None:
+            VCLOCK.advance(m[1])               # a due timer's handler raises from here, like a signal in a blocking read
+            m[2] = True
+            m = self._due()
+        return self._read()
+
+
+class AsyncScriptedTransport(LatencyMixin, OnceFaultMixin, simdevice.AsyncScriptedTransport):
+    async def read(self):
+        m = self._due()
+        while m is not None:
+            await asyncio.sleep(m[1])          # virtual seconds (VirtualLoop); cancelled by the decorator's wait_for
+            m[2] = True
+            m = self._due()
+        return self._read()
 
 
 class DialogDevice(SimDevice):
@@ -47,9 +221,11 @@ class DialogDevice(SimDevice):
     a refused answer prints `abort_out` and the prompt.  Whatever is typed after that is an ordinary line.
     Written from the vendors' CLI behaviour (clear counters / reload / copy ... dialogues), independent of scrapli."""
 
-    def __init__(self, *a, dialogs=None, **kw):
+    def __init__(self, *a, dialogs=None, latency=None, **kw):
         super().__init__(*a, **kw)
         self.dialogs = dialogs or {}
+        self.latency = latency or {}      # line -> seconds the device needs before it prints the answer to that line
+        self.delays = []                  # [offset in self.out, seconds, paid]: set when such a line is entered
         self.dlg = None                   # (spec, index of the question being asked)
         self.dialog_trace = []            # what the dialogue engine did, for the observation
 
@@ -78,6 +254,8 @@ class DialogDevice(SimDevice):
     def _return(self):
         if self.dlg is None:
             line = bytes(self.line).decode("latin-1").strip()
+            if self.dialog is None and self.latency.get(line):
+                self.delays.append([len(self.out), float(self.latency[line]), False])
             spec = self.dialogs.get(line)
             if spec is None or self.dialog is not None or line in self._table():
                 super()._return()
@@ -108,7 +286,7 @@ def build(sc, stack):
     d = sc["device"]
     kind = sc["kind"]
     plat = "cisco_iosxe" if kind == "network" else kind
-    dev = DialogDevice(plat, dialogs=d.get("dialogs"), host=d.get("host", "router1"), user=d.get("user", "admin"), login_mode=d.get("login_mode"),
+    dev = DialogDevice(plat, dialogs=d.get("dialogs"), latency=d.get("latency"), host=d.get("host", "router1"), user=d.get("user", "admin"), login_mode=d.get("login_mode"),
                     outputs={k: v.encode("latin-1") for k, v in d.get("outputs", {}).items()},
                     secret=d.get("secret"), nl=d.get("nl", "\r\n").encode(), banner=d.get("banner", ""),
                     refuse=[tuple(x) for x in d.get("refuse", [])], ignore=[tuple(x) for x in d.get("ignore", [])],
@@ -162,6 +340,8 @@ def _call_args(drv, op):
         return drv.send_config, [a[0]], dict(a[1]) if len(a) > 1 else {}
     if name == "send_configs":
         return drv.send_configs, [list(a[0])], dict(a[1]) if len(a) > 1 else {}
+    if name in ("send_commands_from_file", "send_configs_from_file"):
+        return getattr(drv, name), [_lines_file(a[0])], dict(a[1]) if len(a) > 1 else {}
     if name == "send_interactive":
         return drv.send_interactive, [[tuple(x) for x in a[0]]], dict(a[1]) if len(a) > 1 else {}
     if name == "send_and_read":
@@ -175,6 +355,22 @@ def _call_args(drv, op):
     if name == "channel_send_inputs_interact":
         return drv.channel.send_inputs_interact, [[tuple(x) for x in a[0]]], dict(a[1]) if len(a) > 1 else {}
     raise ValueError("unknown op %r" % (name,))
+
+
+_FILES = {"dir": None}
+
+
+def _lines_file(lines):
+    """the *_from_file operations carry their lines in the scenario; the file is written here (content-addressed)"""
+    if _FILES["dir"] is None:
+        _FILES["dir"] = tempfile.mkdtemp(prefix="c06_files_")
+        atexit.register(shutil.rmtree, _FILES["dir"], True)
+    text = "\n".join(lines) + ("\n" if lines else "")
+    path = os.path.join(_FILES["dir"], hashlib.sha256(text.encode()).hexdigest()[:16] + ".txt")
+    if not os.path.exists(path):
+        with open(path, "w", encoding="utf-8") as f:
+            f.write(text)
+    return path
 
 
 def _has(drv, op):
@@ -197,25 +393,27 @@ def _finish(dev, drv, obs):
         "device_mode": dev.mode,
         "dialogue": list(dev.dialog_trace) + (["open"] if dev.dlg is not None else []),
         "alive": bool(drv.isalive()),
+        "timeout_ops": drv.timeout_ops,          # what the per-call overrides left behind
     }
 
 
 def run_sync(sc):
-    dev, drv = build(sc, "sync")
-    obs = []
-    for op in sc["ops"]:
-        if not _has(drv, op):
-            obs.append(["skip", op[0]])
-            continue
-        fn, a, kw = _call_args(drv, op)
-        try:
-            obs.append(["ok", canon(fn(*a, **kw))])
-        except Starved:
-            obs.append(["exc", "Starved"])
-            break
-        except Exception as e:  # noqa
-            obs.append(["exc", type(e).__name__])
-    return _finish(dev, drv, obs)
+    with scripted_timers():
+        dev, drv = build(sc, "sync")
+        obs = []
+        for op in sc["ops"]:
+            if not _has(drv, op):
+                obs.append(["skip", op[0]])
+                continue
+            fn, a, kw = _call_args(drv, op)
+            try:
+                obs.append(["ok", canon(fn(*a, **kw))])
+            except Starved:
+                obs.append(["exc", "Starved"])
+                break
+            except Exception as e:  # noqa
+                obs.append(["exc", type(e).__name__])
+        return _finish(dev, drv, obs)
 
 
 async def _run_async(sc):
@@ -242,7 +440,7 @@ async def _run_async(sc):
 def run_async_batch(scs):
     async def go():
         return await asyncio.gather(*(asyncio.ensure_future(_run_async(sc)) for sc in scs))
-    loop = asyncio.new_event_loop()
+    loop = VirtualLoop()
     try:
         return loop.run_until_complete(go())
     finally:
@@ -256,6 +454,26 @@ def diff_obs(a, b):
         if a[k] != b.get(k):
             out.append(k)
     return out
+
+
+SIG_AND_READ_TIMEOUT = "c06-send-and-read-ops-timeout-exception-class"
+
+
+def known_signature(sc, a, b, d):
+    """signature of the listed finding a difference belongs to, or None.  Listed: when timeout_ops expires inside
+    send_and_read, the sync stack's SIGALRM handler raises ScrapliTimeout inside `with suppress(ScrapliTimeout)` of
+    Channel._read_until_prompt_or_time (meant for the transport's read timeout), the loop reads again from the transport the
+    handler has closed and ScrapliConnectionNotOpened comes out; the asyncio stack raises ScrapliTimeout.  Recognised by its
+    observation only: nothing but the operation results differ, and the first differing operation is a send_and_read with
+    exactly these two exception classes."""
+    if d != ["ops"] or len(a["ops"]) != len(b["ops"]):
+        return None
+    for op, x, y in zip(sc["ops"], a["ops"], b["ops"]):
+        if x != y:
+            if op[0] == "send_and_read" and x == ["exc", "ScrapliConnectionNotOpened"] and y == ["exc", "ScrapliTimeout"]:
+                return SIG_AND_READ_TIMEOUT
+            return None
+    return None
 
 
 # ------------------------------------------------------------------------------------------------
@@ -386,19 +604,25 @@ def gen_interactive(rng, kind, dev, channel_level=False):
 # scenario families: what a scenario mostly consists of.  FN_FAMILY maps a paired function (the name behind the
 # class in the twin table) to the families whose scenarios reach it; c06.py searches those families first when the
 # twin-diff obligation of that function breaks.
-FAMILIES = ["interactive", "commands", "and_read", "prompt", "configs", "priv", "lifecycle"]
+FAMILIES = ["interactive", "commands", "and_read", "prompt", "configs", "priv", "lifecycle", "lists", "timeouts"]
+_LISTS = ["commands", "lists", "timeouts"]
+_CONFS = ["configs", "lists", "timeouts"]
 FN_FAMILY = {
-    "send_inputs_interact": ["interactive", "priv"], "send_interactive": ["interactive"],
-    "_read_until_explicit_prompt": ["interactive", "priv"], "_read_until_input": ["interactive", "commands", "configs"],
-    "_read_until_prompt": ["commands", "prompt", "configs"], "_read_until_prompt_or_time": ["and_read"],
-    "send_input_and_read": ["and_read"], "send_and_read": ["and_read"],
-    "send_input": ["commands", "configs", "priv"], "_send_command": ["commands"], "send_command": ["commands"],
-    "send_commands": ["commands"], "get_prompt": ["prompt", "priv"], "read": FAMILIES, "_channel_lock": FAMILIES,
-    "send_config": ["configs"], "send_configs": ["configs"], "_abort_config": ["configs"],
+    "send_inputs_interact": ["interactive", "priv", "timeouts"], "send_interactive": ["interactive", "timeouts"],
+    "_read_until_explicit_prompt": ["interactive", "priv"], "_read_until_input": ["interactive", "commands", "configs", "lists"],
+    "_read_until_prompt": ["commands", "prompt", "configs", "lists"], "_read_until_prompt_or_time": ["and_read", "timeouts"],
+    "send_input_and_read": ["and_read", "timeouts"], "send_and_read": ["and_read", "timeouts"],
+    "send_input": ["commands", "configs", "priv", "lists", "timeouts"], "_send_command": _LISTS, "send_command": ["commands", "timeouts"],
+    "send_commands": _LISTS, "send_commands_from_file": ["lists", "timeouts"],
+    "get_prompt": ["prompt", "priv", "timeouts"], "read": FAMILIES, "_channel_lock": FAMILIES,
+    "send_config": _CONFS, "send_configs": _CONFS, "send_configs_from_file": ["lists", "timeouts"], "_abort_config": ["configs", "lists"],
     "_acquire_appropriate_privilege_level": ["priv", "configs", "interactive"], "_escalate": ["priv"], "_deescalate": ["priv"],
     "acquire_priv": ["priv"], "register_configuration_session": ["priv", "configs"],
     "open": ["lifecycle"], "close": ["lifecycle"], "__init__": ["lifecycle"], "__enter__": ["lifecycle"], "__exit__": ["lifecycle"],
     "commandeer": ["lifecycle"],
+    # the two variants (function / coroutine) of the decorators of scrapli/decorators.py, paired by gen_twins as
+    # "decorators:timeout_modifier" / "decorators:timeout_wrapper"
+    "timeout_modifier": ["timeouts", "lists"], "timeout_wrapper": ["timeouts", "prompt"],
 }
 
 
@@ -410,10 +634,196 @@ def families_of(fn):
     return list(FN_FAMILY.get(name, FAMILIES))
 
 
-def gen_family_op(rng, kind, dev, family):
+# ------------------------------------------------------------------------------------------------
+# lists with repeated entries (send_commands / send_configs / send_config / the *_from_file variants), eager on / off
+# ------------------------------------------------------------------------------------------------
+# lines after which a device prints NO prompt (it waits for more text): the reason `eager` exists.  Device side =
+# a dialogue whose "questions" are the device's silent waiting for the next line of text.
+PROMPTLESS = {
+    "banner motd ^": {"steps": [{"q": "Enter TEXT message.  End with the character '^'."}, {"q": ""}], "out": ""},
+    "crypto pki certificate chain ca": {"steps": [{"q": ""}, {"q": ""}, {"q": ""}], "out": ""},
+    "macro name m1": {"steps": [{"q": "Enter macro commands one per line. End with the character '@'."}], "out": ""},
+}
+REPEAT_SHAPES = ["adjacent", "apart", "last_earlier", "last_earlier", "all_same", "first_last", "none", "variant"]
+
+
+def gen_repeat_list(rng, pool):
+    """a list of lines from `pool` with a given shape of repetition; -> (lines, shape)"""
+    shape = rng.choice(REPEAT_SHAPES)
+    n = rng.choice([2, 3, 3, 4, 5, 6])
+    x = rng.choice(pool)
+    others = [p for p in pool if p != x] or [x]
+    fill = lambda k: [rng.choice(others) for _ in range(k)]      # noqa: E731
+    if shape == "adjacent":
+        i = rng.randint(0, n - 2)
+        lines = fill(i) + [x, x] + fill(n - 2 - i)
+    elif shape == "apart":
+        n = max(n, 3)
+        i = rng.randint(0, n - 3)
+        j = rng.randint(i + 2, n - 1)
+        lines = fill(n)
+        lines[i] = lines[j] = x
+    elif shape == "last_earlier":
+        lines = fill(n - 1) + [x]
+        lines[rng.randint(0, n - 2)] = x
+        if rng.random() < 0.3 and n > 2:
+            lines[rng.randint(0, n - 2)] = x
+    elif shape == "all_same":
+        lines = [x] * n
+    elif shape == "first_last":
+        lines = [x] + fill(max(n - 2, 0)) + [x]
+    elif shape == "variant":      # the same line up to case / surrounding blanks: the device runs the same thing
+        v = rng.choice([x + " ", " " + x, x.upper(), x.capitalize()])
+        lines = fill(n - 2) + [v]
+        lines.insert(rng.randint(0, len(lines) - 1), x)
+    else:
+        lines = rng.sample(pool, min(n, len(pool)))
+    return lines, shape
+
+
+def gen_list_op(rng, kind, dev):
+    outputs = dev["outputs"]
+    net = kind != "generic"
+    kw = {}
+    r = rng.random()
+    if r < 0.6:
+        kw["eager"] = True
+    elif r < 0.8:
+        kw["eager"] = False
+    if rng.random() < 0.3:
+        kw["stop_on_failed"] = True
+    if rng.random() < 0.15:
+        kw["strip_prompt"] = False
+    if rng.random() < 0.08:
+        kw["eager_input"] = True
+    conf = net and rng.random() < 0.5
+    pool = (CONF + ["bogus line"]) if conf else (list(outputs) or SHOW)
+    lines, shape = gen_repeat_list(rng, pool)
+    if kw.get("eager") and rng.random() < 0.25:
+        # a block of text after whose lines the device prints no prompt, its lines repeating each other / the last entry
+        free = [t for t in sorted(PROMPTLESS) if t not in dev.get("dialogs", {})]
+        if free:
+            trig = rng.choice(free)
+            dev.setdefault("dialogs", {})[trig] = PROMPTLESS[trig]
+            k = len([st for st in PROMPTLESS[trig]["steps"]])
+            text = rng.choice([lines[-1], "^", "@", "quit", lines[-1]])
+            at = rng.randint(0, len(lines) - 1)
+            lines = lines[:at] + [trig] + [text] * k + lines[at:]
+    if not conf and not net and rng.random() < 0.3:
+        kw["failed_when_contains"] = [INVALID[kind]]
+    if conf:
+        if kind in ("cisco_iosxr", "juniper_junos") and rng.random() < 0.2:
+            kw["privilege_level"] = "configuration_exclusive"
+        name = rng.choice(["send_configs", "send_configs", "send_config", "send_configs_from_file"])
+        if name == "send_config":
+            return ["send_config", "\n".join(lines), kw]
+        return [name, lines, kw]
+    return [rng.choice(["send_commands", "send_commands", "send_commands_from_file"]), lines, kw]
+
+
+# ------------------------------------------------------------------------------------------------
+# per-call timeout_ops x device latency (scripted time, see VClock / VirtualLoop above)
+# ------------------------------------------------------------------------------------------------
+CONN_TIMEOUTS = [0, 0.35, 2.1, 2.1, 20.1, 20.1]           # never a multiple of 0.25 s (no ties with the latencies)
+CALL_TIMEOUTS = [0, 0.0, 0.05, 0.35, 2.1, 20.1, 200.1]
+LATENCIES = [0.25, 1.0, 1.0, 10.0, 10.0, 100.0]           # multiples of 0.25 s
+TIMED_OPS = ("send_command", "send_commands", "send_commands_from_file", "send_config", "send_configs", "send_configs_from_file",
+             "send_and_read", "send_interactive")
+
+
+def setup_time(rng, kind, dev, drv_kw):
+    """connection timeout_ops + which device lines are slow"""
+    plat = "cisco_iosxe" if kind == "network" else kind
+    drv_kw["timeout_ops"] = rng.choice(CONN_TIMEOUTS)
+    lat = dev.setdefault("latency", {})
+    cands = list(dev["outputs"])
+    for c in rng.sample(cands, rng.randint(1, min(3, len(cands)))):
+        lat[c] = rng.choice(LATENCIES)
+    if kind != "generic":
+        for c in rng.sample(CONF, rng.randint(0, 2)):
+            lat[c] = rng.choice(LATENCIES)
+        if rng.random() < 0.2:
+            t = simdevice.PLATFORMS[plat]()["trans"]
+            lines = sorted({l for m in t for l in t[m]})
+            lat[rng.choice(lines)] = rng.choice(LATENCIES[:4])
+
+
+def call_timeout(rng, conn):
+    """a per-call timeout_ops value: not given / None / 0 / the connection's / smaller / larger / fractional"""
+    r = rng.random()
+    if r < 0.15:
+        return "absent"
+    if r < 0.25:
+        return None
+    if r < 0.5:
+        return rng.choice([0, 0, 0.0])
+    if r < 0.6:
+        return conn
+    return rng.choice(CALL_TIMEOUTS)
+
+
+def gen_timed_op(rng, kind, dev, drv_kw):
+    conn = drv_kw.get("timeout_ops", 0)
+    slow = sorted(dev.get("latency", {}))
+    cmds = list(dev["outputs"]) or SHOW
+    net = kind != "generic"
+    pick = lambda: rng.choice([c for c in slow if c in dev["outputs"]] or cmds) if rng.random() < 0.7 else rng.choice(cmds)  # noqa: E731
+    r = rng.random()
+    if r < 0.25:
+        op = ["send_command", pick(), {}]
+    elif r < 0.45:
+        op = gen_list_op(rng, kind, dev)
+    elif r < 0.55:
+        kw = {"read_duration": 120}
+        if rng.random() < 0.6:
+            kw["expected_outputs"] = [rng.choice(["one", "zz", "Version", "#"])]
+        # (kept away from the listed finding SIG_AND_READ_TIMEOUT: a quick line, or no timeout for this call)
+        quick = [c for c in cmds if c not in slow]
+        op = ["send_and_read", rng.choice(quick) if quick else pick(), kw]
+        if not quick:
+            kw["timeout_ops"] = 0
+            return op
+    elif r < 0.7:
+        if rng.random() < 0.5:
+            op = gen_interactive(rng, kind, dev)
+            if op[0] == "send_interactive" and rng.random() < 0.5:      # the dialogue's first line is slow
+                dev.setdefault("latency", {})[op[1][0][0]] = rng.choice(LATENCIES)
+        else:
+            op = ["send_interactive", [[pick(), PROMPT_TAIL.get(kind, "#"), False]], {}]
+    elif r < 0.85 and net:
+        lines = [rng.choice(CONF + ["bogus line"]) for _ in range(rng.choice([1, 2, 3]))]
+        name = rng.choice(["send_configs", "send_config", "send_configs_from_file"])
+        op = [name, "\n".join(lines) if name == "send_config" else lines, {"stop_on_failed": True} if rng.random() < 0.3 else {}]
+    elif r < 0.9:
+        return ["get_prompt"]
+    elif r < 0.95:
+        return ["channel_send_input", pick(), {}]
+    elif net:
+        return ["acquire_priv", rng.choice(PRIVS[kind])]
+    else:
+        op = ["send_command", pick(), {}]
+    if op[0] in TIMED_OPS:
+        v = call_timeout(rng, conn)
+        if v != "absent":
+            if len(op) < 3:
+                op.append({})
+            op[2]["timeout_ops"] = v
+    return op
+
+
+def gen_family_op(rng, kind, dev, family, drv_kw=None):
     outputs = dev["outputs"]
     cmds = list(outputs) or SHOW
     net = kind != "generic"
+    if family == "lists":
+        op = gen_list_op(rng, kind, dev)
+        if drv_kw and "timeout_ops" in drv_kw:
+            v = call_timeout(rng, drv_kw["timeout_ops"])
+            if v != "absent":
+                op[2]["timeout_ops"] = v
+        return op
+    if family == "timeouts":
+        return gen_timed_op(rng, kind, dev, drv_kw if drv_kw is not None else {})
     if family == "interactive":
         return gen_interactive(rng, kind, dev, channel_level=rng.random() < 0.3)
     if family == "commands":
@@ -522,10 +932,12 @@ def gen_scenario(rng, kind=None, faulty=None, family=None):
     if kind == "juniper_junos" and rng.random() < 0.3:
         dev["banner"] = "{master}"
     sc = {"kind": kind, "device": dev, "driver_kwargs": kw, "policy": gen_policy(rng), "fault": None}
+    if family == "timeouts" or (family == "lists" and rng.random() < 0.25):
+        setup_time(rng, kind, dev, kw)
     ops = [["open"]]
     for _ in range(rng.choice([1, 2, 3, 4, 6])):
-        if family is not None and rng.random() < 0.7:
-            ops.append(gen_family_op(rng, kind, dev, family))
+        if family is not None and rng.random() < (0.85 if family in ("lists", "timeouts") else 0.7):
+            ops.append(gen_family_op(rng, kind, dev, family, kw))
         else:
             ops.append(gen_op(rng, kind, outputs))
     if family is not None:
@@ -600,4 +1012,41 @@ def corpus():
                 out.append({"kind": kind, "device": {"outputs": {}, "dialogs": {name: spec}}, "driver_kwargs": {}, "policy": ["bytes", 2],
                             "fault": None, "family": "interactive",
                             "ops": [["open"], [op, evs, {"interaction_complete_patterns": [ANY_PROMPT]}], ["get_prompt"]]})
+    # lists with repeated entries under eager on / off: adjacent, apart, the last entry earlier in the list, a block of
+    # text after whose lines the device prints no prompt
+    outs = {"show version": "v1\nv2", "show clock": "12:00"}
+    for kind, pol in (("generic", ["whole"]), ("network", ["bytes", 3]), ("cisco_nxos", ["random", 5, 7])):
+        for eager in (True, False):
+            for lines in (["show clock", "show clock", "show version"], ["show clock", "show version", "show clock"],
+                          ["show version", "show version"], ["show clock"] * 3):
+                for name in ("send_commands", "send_commands_from_file"):
+                    out.append({"kind": kind, "device": {"outputs": outs}, "driver_kwargs": {}, "policy": pol, "fault": None,
+                                "family": "lists", "ops": [["open"], [name, lines, {"eager": eager}], ["get_prompt"]]})
+            if kind == "generic":
+                continue
+            conf = ["interface Loopback0", "no shutdown", "interface Loopback1", "no shutdown"]
+            out.append({"kind": kind, "device": {"outputs": outs}, "driver_kwargs": {}, "policy": pol, "fault": None, "family": "lists",
+                        "ops": [["open"], ["send_configs", conf, {"eager": eager}], ["send_config", "\n".join(conf), {"eager": eager}],
+                                ["send_configs_from_file", conf + conf[:2], {"eager": eager, "stop_on_failed": True}]]})
+            if eager:
+                out.append({"kind": kind, "device": {"outputs": outs, "dialogs": {"banner motd ^": PROMPTLESS["banner motd ^"]}},
+                            "driver_kwargs": {}, "policy": pol, "fault": None, "family": "lists",
+                            "ops": [["open"], ["send_configs", ["banner motd ^", "^", "^", "hostname r9", "^"], {"eager": True}],
+                                    ["get_prompt"]]})
+    # per-call timeout_ops (not given, None, 0, the connection's, smaller, larger, fractional) x a slow line x connection timeout
+    slow = {"outputs": outs, "latency": {"show version": 10.0, "no shutdown": 10.0}}
+    for kind in ("generic", "cisco_iosxe"):
+        for conn in (0, 2.1, 20.1):
+            for v in ("absent", None, 0, 0.0, conn, 0.35, 2.1, 20.1, 200.1):
+                kw = {} if v == "absent" else {"timeout_ops": v}
+                ops = [["open"], ["send_command", "show version", dict(kw)], ["send_commands", ["show clock", "show version"], dict(kw)],
+                       ["send_and_read", "show version", dict(kw, read_duration=120)],
+                       ["send_interactive", [["show version", "#", False]], dict(kw)]]
+                if kind != "generic":
+                    ops += [["send_configs", ["interface Loopback0", "no shutdown"], dict(kw)], ["send_config", "no shutdown", dict(kw)],
+                            ["send_configs_from_file", ["no shutdown"], dict(kw)]]
+                ops.append(["send_commands_from_file", ["show version"], dict(kw)])
+                for op in ops[1:]:       # one timed operation per scenario: a timeout closes the connection
+                    out.append({"kind": kind, "device": slow, "driver_kwargs": {"timeout_ops": conn}, "policy": ["bytes", 5],
+                                "fault": None, "family": "timeouts", "ops": [["open"], op, ["get_prompt"]]})
     return out
